@@ -688,6 +688,7 @@ def _get_simple_equalities(lits: list[AST]) -> list[AST]:
         if (
             lit.ast_type == ASTType.Literal
             and lit.atom.ast_type == ASTType.Comparison
+            and len(lit.atom.guards) == 1
             and lit.atom.term.ast_type == ASTType.Variable
             and lit.atom.guards[0].term.ast_type == ASTType.Variable
         ):
@@ -787,6 +788,7 @@ def replace_assignments(stm: AST) -> AST:
         if (
             lit.ast_type == ASTType.Literal
             and lit.atom.ast_type == ASTType.Comparison
+            and len(lit.atom.guards) == 1
             and lit.atom.term.ast_type == ASTType.Variable
             and not has_interval(lit.atom.guards[0].term)
         ):
